@@ -76,6 +76,7 @@ type emBinding struct {
 type emEnv struct {
 	fn     *ssa.Function
 	params map[*ssa.Parameter]emBinding
+	free   map[*ssa.FreeVar]emBinding // closures: the captured cells, in the environment that made the closure
 	// loop state
 	marker   map[*ssa.Phi]bool // buffer phis being expanded
 	loopIdx  map[ssa.Value]bool
@@ -101,6 +102,27 @@ func emRoot(fn *ssa.Function, names map[*ssa.Parameter]string) *emEnv {
 // emReturn evaluates the byte slice fn returns on success.
 func (env *emEnv) emReturn() ([]emTerm, error) {
 	rets := fxSuccessReturns(env.fn)
+	// `return helper(buf, …)` forwarding (bytes, error): where the error is nil
+	// the bytes are what the helper returns on success (evaluated by callBuf)
+	if ei := ir.ErrorResultIndex(env.fn.Signature); ei > 0 {
+		for _, r := range ir.Returns(env.fn) {
+			if ei >= len(r.Results) {
+				continue
+			}
+			e0, ok0 := r.Results[0].(*ssa.Extract)
+			e1, ok1 := r.Results[ei].(*ssa.Extract)
+			if !ok0 || !ok1 || e0.Tuple != e1.Tuple || e0.Index != 0 {
+				continue
+			}
+			call, ok := e0.Tuple.(*ssa.Call)
+			if !ok || call.Call.IsInvoke() {
+				continue
+			}
+			if callee := ir.Callee(call.Call); callee != nil && callee.Blocks != nil && ir.ErrorResultIndex(callee.Signature) == e1.Index {
+				rets = append(rets, r)
+			}
+		}
+	}
 	var vals []ssa.Value
 	var at []*ssa.Return
 	for _, r := range rets {
@@ -258,16 +280,50 @@ func (env *emEnv) buf(v ssa.Value) ([]emTerm, error) {
 
 func (env *emEnv) callBuf(call *ssa.Call) ([]emTerm, error) {
 	callee := ir.Callee(call.Call)
+	if callee != nil && callee.Blocks == nil && !call.Call.IsInvoke() && len(call.Call.Args) == 2 {
+		// binary.AppendUvarint(buf, x) / binary.AppendVarint(buf, x): the varint
+		// of x appended to buf — the bytes PutUvarint/PutVarint write, with no
+		// scratch array that could be too small (the library sizes it itself:
+		// binary.MaxVarintLen64)
+		if kind := map[string]string{"encoding/binary.AppendUvarint": "U", "encoding/binary.AppendVarint": "V"}[fxFullName(callee)]; kind != "" {
+			head, err := env.buf(call.Call.Args[0])
+			if err != nil {
+				return nil, err
+			}
+			d, err := env.desc(call.Call.Args[1])
+			if err != nil {
+				return nil, err
+			}
+			return append(head, emTerm{Kind: kind, Arg: d, Scratch: emMaxVarintLen64, Pos: call, Fn: env.fn}), nil
+		}
+	}
 	if callee == nil || callee.Blocks == nil {
 		return nil, emFail("buffer is produced by a call the rule cannot inline: %s", ir.Sym(call))
 	}
+	return env.subEnv(call, callee).emReturn()
+}
+
+// emMaxVarintLen64 is encoding/binary.MaxVarintLen64: what AppendUvarint can
+// write at most, i.e. every uint64 is encodable.
+const emMaxVarintLen64 = 10
+
+// subEnv prepares the evaluation of callee, statically called at call: its
+// parameters are the call's arguments and, for a closure, its free variables
+// the cells the closure was made over, all evaluated in env.
+func (env *emEnv) subEnv(call *ssa.Call, callee *ssa.Function) *emEnv {
 	sub := &emEnv{fn: callee, params: map[*ssa.Parameter]emBinding{}, marker: map[*ssa.Phi]bool{}, loopIdx: map[ssa.Value]bool{}, depth: env.depth + 1}
 	for i, p := range callee.Params {
 		if i < len(call.Call.Args) {
 			sub.params[p] = emBinding{arg: call.Call.Args[i], env: env}
 		}
 	}
-	return sub.emReturn()
+	if mc, ok := call.Call.Value.(*ssa.MakeClosure); ok && len(mc.Bindings) == len(callee.FreeVars) {
+		sub.free = map[*ssa.FreeVar]emBinding{}
+		for i, fv := range callee.FreeVars {
+			sub.free[fv] = emBinding{arg: mc.Bindings[i], env: env}
+		}
+	}
+	return sub
 }
 
 // loop expands a buffer phi at a loop header.
@@ -526,6 +582,17 @@ func (env *emEnv) desc(v ssa.Value) (string, error) {
 				return "", err
 			}
 			return d + "[]", nil
+		case *ssa.FreeVar:
+			// a variable of the enclosing function read in a closure: the value
+			// its cell holds, when that is stored exactly once
+			if b, ok := env.free[a]; ok && b.env != nil {
+				if cell, ok := b.arg.(*ssa.Alloc); ok {
+					if st := ir.SingleStore(cell); st != nil {
+						return b.env.desc(st.Val)
+					}
+				}
+			}
+			return "", emFail("captured variable %s is not a cell written once", a.Name())
 		}
 	case *ssa.Field:
 		d, err := env.desc(x.X)
@@ -585,9 +652,13 @@ func intBits(b *types.Basic) int {
 	return 64
 }
 
-// callDesc describes result #0 of a call through a function-valued parameter
-// (the element marshaler): M(arg).
+// callDesc describes result #0 of a call: through a function-valued parameter
+// (the element marshaler) M(arg); of a static callee with a body (a helper
+// computing the value) what the helper returns, in terms of its arguments.
 func (env *emEnv) callDesc(c *ssa.Call) (string, error) {
+	if callee := ir.Callee(c.Call); callee != nil && callee.Blocks != nil && !c.Call.IsInvoke() {
+		return env.inlineDesc(c, callee)
+	}
 	if c.Call.IsInvoke() || ir.Callee(c.Call) != nil {
 		return "", emFail("call %s is not the element marshaler", ir.Sym(c))
 	}
@@ -603,6 +674,84 @@ func (env *emEnv) callDesc(c *ssa.Call) (string, error) {
 		return "", err
 	}
 	return f + "(" + a + ")", nil
+}
+
+// inlineDesc describes result #0 of the helper callee called at c: the value
+// of its success returns, evaluated with the parameters bound to the call's
+// arguments. Several returns must describe the same value; the one accepted
+// difference is the early-return form of str(x) (see strPhi):
+//
+//	if x == nil { return "" }; s, ok := x.(string); …; return s
+//
+// — "" is returned only where a dominating test established that x is nil,
+// every other return is the string asserted out of that same x.
+func (env *emEnv) inlineDesc(c *ssa.Call, callee *ssa.Function) (string, error) {
+	if env.depth > 12 {
+		return "", emFail("inlining too deep")
+	}
+	sub := env.subEnv(c, callee)
+	var empties []*ssa.Return
+	var descs []string
+	var subjs []ssa.Value
+	for _, r := range fxSuccessReturns(callee) {
+		if len(r.Results) == 0 {
+			continue
+		}
+		v := ir.ResolveCell(r.Results[0])
+		if k := fxConst(v); k != nil && k.ExactString() == `""` {
+			empties = append(empties, r)
+			continue
+		}
+		d, err := sub.desc(v)
+		if err != nil {
+			return "", err
+		}
+		var subj ssa.Value
+		switch o := v.(type) {
+		case *ssa.Extract:
+			if ta, ok := o.Tuple.(*ssa.TypeAssert); ok && o.Index == 0 && fxShortType(ta.AssertedType) == "string" {
+				subj = ta.X
+			}
+		case *ssa.TypeAssert:
+			if fxShortType(o.AssertedType) == "string" {
+				subj = o.X
+			}
+		}
+		descs = append(descs, d)
+		subjs = append(subjs, subj)
+	}
+	if len(descs) == 0 {
+		if len(empties) > 0 {
+			return `""`, nil
+		}
+		return "", emFail("%s has no success return", callee.Name())
+	}
+	if len(empties) == 0 {
+		for _, d := range descs[1:] {
+			if d != descs[0] {
+				return "", emFail("%s returns different values (%s, %s)", callee.Name(), descs[0], d)
+			}
+		}
+		return descs[0], nil
+	}
+	// "" on some paths: all the others are the string held by one subject …
+	subj := ir.ResolveCell(subjs[0])
+	for _, s := range subjs {
+		if s == nil || subj == nil || ir.ResolveCell(s) != subj {
+			return "", emFail("%s returns the empty string on some paths and %s on others", callee.Name(), strings.Join(descs, ", "))
+		}
+	}
+	d, err := sub.desc(subj)
+	if err != nil {
+		return "", err
+	}
+	// … and "" is returned only for a nil subject
+	for _, r := range empties {
+		if !blockHasNil(r.Block(), func(v ssa.Value) bool { return ir.ResolveCell(v) == subj }, true) {
+			return "", emFail("%s: the empty string is not returned exactly for a nil %s", callee.Name(), ir.Sym(subj))
+		}
+	}
+	return "str(" + d + ")", nil
 }
 
 // strPhi recognises `s := ""; if x != nil { s = x.(string) }`: str(x).
